@@ -9,11 +9,16 @@ What is demanded of every request (nothing else):
       delimiters (CRLF "--" boundary) and blank lines (CRLF CRLF) in B by itself; part i starts after delimiter i, its
       data runs from the first blank line after that to the next delimiter; a part without a following delimiter is
       not terminated.  Each delivered value must equal the data of a terminated part not used by another value;
-  O3  request.body delivered to the handler equals B.
+  O3  request.body delivered to the handler equals B;
+  O1h (the `hang/*` families) no regular expression that ombott applies to body text or to the Content-Type needs more
+      than 50*L*L+1000 steps of a backtracking interpreter of its parse tree on a text of L characters (one step = one
+      node of the pattern tried at one position; CPython's engine does the same work, uninterruptibly).  That is the
+      deterministic stand-in for "a hang": linear and quadratic matching pass whatever the input, cubic and exponential
+      matching is over the budget from ~40 characters on, and the lines of these families are 60-330 characters long.
 Tolerances decided up front: which 4xx is chosen, whether a malformed text is refused or (partly) accepted, names and
 order of the fields are not judged; a field delivered as None (ombott does that for a part with filename="") counts as
-not delivered; the JSON value itself is not judged.  A path that exceeds the per-path time limit makes the query
-inconclusive (possible hang), never confirmed.
+not delivered; the JSON value itself is not judged; time that grows with the square of a header line's length is not a
+hang.  A path that exceeds the per-path time limit makes the query inconclusive (possible hang), never confirmed.
 """
 import functools
 import json
@@ -34,7 +39,10 @@ PROPERTY = "C12"
 TECHNIQUE = ("bounded symbolic execution of Ombott.__call__ with handlers reading request.forms/files/json/body (CrossHair+"
              "z3): grammar-mutated multipart skeletons with 1-3 fully symbolic bytes at the mutated site, symbolic "
              "truncation point / buffer size / short reads, JSON skeletons with symbolic holes, fully symbolic urlencoded "
-             "text; oracle = status class + silent wsgi.errors + an independent delimiter scanner of the sent text")
+             "text; long header lines / header blocks / content types = pump (unit x run length picked by the solver) with "
+             "symbolic bytes at the joints, the regular expressions run by a step-counting backtracking interpreter of "
+             "their current parse tree; oracle = status class + silent wsgi.errors + an independent delimiter scanner of "
+             "the sent text + step budget 50*L*L+1000 per regular expression call")
 LEVEL_TEXT = ("The real request path (body reader under Content-Length and chunked framing, streaming multipart markup, "
               "FieldStorage header/value parsing, JSON and urlencoded decoding, Request._raise and the error map, "
               "Ombott._handle/_cast/wsgi) is executed for every value (all 256) of the symbolic bytes placed at each "
@@ -47,7 +55,15 @@ LEVEL_TEXT = ("The real request path (body reader under Content-Length and chunk
               "1-3 symbolic bytes and for every urlencoded text up to the stated length. z3 decides every branch, so "
               "inside the bound each request is answered 2xx or 4xx with exactly one start_response, no traceback and no "
               "escaping exception, and every delivered field equals the data of a delimiter-terminated part of the sent "
-              "text as found by the harness's own scanner. Bounded: skeletons, sites and handler kinds are enumerated.")
+              "text as found by the harness's own scanner. No hang: for part header lines (name, filename, unknown "
+              "parameter, Content-Type line) that carry a parameter made of a pump - a unit of 1-2 characters from the "
+              "characters the parsers distinguish, repeated to 64..150 (thorough 40..200) characters - quoted, unquoted, "
+              "unterminated or as key, with 1-2 fully symbolic bytes after the opening quote / before the end / after the "
+              "closing quote, for header blocks with long runs of CR / LF / filler before two symbolic bytes, and for "
+              "Content-Type values with pumps around `boundary=`, every regular expression of the body path "
+              "(FieldStorage._patt, end_headers_patt, MULTIPART_BOUNDARY_PATT - as compiled in the tree under test) "
+              "finishes within 50*L*L+1000 interpreter steps. Bounded: skeletons, sites, pump units, run lengths and "
+              "handler kinds are enumerated.")
 LEVEL_NOTE = ("Trusted: z3, CrossHair's bytes/str/regex/codec models (+vf/chmodels, + two corrections of its regex model "
               "in vf/stubs_c12, compared with CPython's re under the tracer at every run), CPython "
               "for concrete steps, the reference scanner, the stubs PyBytesIO, SymStream, PieceStream, ListForms, "
@@ -56,7 +72,11 @@ LEVEL_NOTE = ("Trusted: z3, CrossHair's bytes/str/regex/codec models (+vf/chmode
               "status, response body and delivered values (a difference is reported as a machinery error). The symbolic "
               "bytes reach the streaming parser in a short read of their own (window of the stated context); other read "
               "divisions are enumerated, not symbolic. JSON model queries cover bytes 0x01-0x7f, the real json.loads is "
-              "used with one free byte and on concrete texts.")
+              "used with one free byte and on concrete texts. hang/* queries: BudgetPattern (stubs_c07.PyPattern + step "
+              "counter; compared with re on all short texts at import; the detector is exercised on (a+)+$ natively and "
+              "under the tracer by the self-test); the step count of the interpreter stands for the work of CPython's "
+              "engine (same backtracking order, no memoisation in either). After a linear allowance of traced steps the "
+              "subject is realised and the match is redone untraced: the values not picked stay in the search tree.")
 FUNCTIONS = [
     "ombott.ombott:Ombott.wsgi",
     "ombott.ombott:Ombott._handle",
@@ -93,6 +113,10 @@ STUBS = [
     "fix_relib: corrections of CrossHair's regex model (an optional group was matched without its continuation, which "
     "lost the `name` option of every header line containing a symbolic character; `$` did not match before a final "
     "newline)",
+    "BudgetPattern (hang/* queries only): FieldStorage._patt, multipart.end_headers_patt and body_mixin."
+    "MULTIPART_BOUNDARY_PATT replaced by a backtracking interpreter (stubs_c07.PyPattern + IGNORECASE, bytes subjects, "
+    "character categories) of the parse tree of the pattern the tree under test has, counting steps; over 50*L*L+1000 "
+    "steps = DidNotFinish + an entry in stubs_c12.HANGS, which the oracle reads whatever is answered",
 ]
 ASSUMPTIONS = [
     "a WSGI server may return fewer bytes than asked from wsgi.input.read (PEP 3333): the windowing of the symbolic "
@@ -103,6 +127,8 @@ ASSUMPTIONS = [
     "a reader that calls wsgi.input.read more than 200 times at EOF does not terminate: the stream stubs raise there, "
     "so a hang is a failure (500 + traceback, or an escaping exception), not an inconclusive path",
     "a traceback on wsgi.errors is the witness of the catch-all 500 branch of Ombott._handle / Ombott.wsgi",
+    "a regular expression call that needs more than 50*L*L+1000 backtracking steps on L characters is a hang (with the "
+    "default 100 KiB in-memory limit a header line may be ~100 000 characters: cubic work is ~1e15 steps)",
 ]
 OUTSIDE = [
     "multipart skeletons, boundaries and mutation sites other than the enumerated ones; more than 3 symbolic bytes",
@@ -111,6 +137,8 @@ OUTSIDE = [
     "JSON texts other than skeleton + holes; bytes >= 0x80 and NUL in more than one free position of a JSON text",
     "urlencoded texts longer than the stated length",
     "malformed Content-Length / Transfer-Encoding header values (not body bytes)",
+    "long header lines other than start + one pump parameter of the enumerated shapes, units and run lengths; more than "
+    "two free bytes per line; pumps of more than one unit; regular expressions outside request_pkg's body path",
 ]
 BUDGET_S = {"quick": 290, "thorough": 1180}
 STATS = {}
@@ -780,9 +808,10 @@ def make_hang_ctype(tag, units, lengths, kind):
     return checked(q)
 
 
-def make_hang_block(units, lengths, kind, framing):
+def make_hang_block(units, lengths, kind, framing, whole):
     """a header block of many lines: name line, `count` filler lines `X: pump`, then two free bytes where the blank
-    line should start - the header-block scanner (end_headers_patt) and the line splitter on long blocks"""
+    line should start - the header-block scanner (end_headers_patt) and the line splitter on long blocks; `whole`: the
+    body arrives in one read, so the scanner sees the pump and what follows it in one text"""
     def q(h: bytes, u: int, n: int):
         assume(len(h) == 2 and 0 <= u < len(units) and 0 <= n < len(lengths))
         unit, length = units[u], lengths[n]
@@ -790,7 +819,7 @@ def make_hang_block(units, lengths, kind, framing):
         pre = b"--b\r\n" + G.H(b"f", b"a" if kind == "files" else None)[0] + CRLF + b"X: " + pump
         post = CRLF + b"xy" + CRLF + b"--b--" + CRLF
         sent = Sent(pre, h, post)
-        stream, env = framed(sent.pieces(3, 3), sent, framing, MP_CTYPE % "b")
+        stream, env = framed([sent.whole()] if whole else sent.pieces(3, 3), sent, framing, MP_CTYPE % "b")
         res = serve(kind, stream, 2048, env, counted=True)
         return judge(kind, res, sent, b"b"), observed(res)
     return checked(q)
@@ -855,9 +884,10 @@ HANG_CTYPE_QUICK = [("quoted", "ct", (60, 150), "forms", 19), ("before-key", "ct
 HANG_CTYPE_THOROUGH = [("value-end", "ct", (60, 150), "forms", 13), ("after-value", "ct", (60, 150), "files", 10), ("before-key", "ct-marks", (40, 150), "forms", 120),
                        ("no-key", "ct-marks", (40, 150), "forms", 120), ("both", "ct-two", (96,), "forms", 150),
                        ("empty-value", "ct", (60, 150), "forms", 12)]
-# (pump unit group, run lengths, handler, framing, CPU seconds)
-HANG_BLOCK_QUICK = [("block-few", (100,), "forms", "cl", 30)]
-HANG_BLOCK_THOROUGH = [("block", (60, 150), "forms", "cl", 145), ("block", (60, 150), "files", "chunked", 65)]
+# (pump unit group, run lengths, handler, framing, one read, CPU seconds)
+HANG_BLOCK_QUICK = [("block-few", (100,), "forms", "cl", True, 30)]
+HANG_BLOCK_THOROUGH = [("block", (60, 150), "forms", "cl", False, 145), ("block", (60, 150), "files", "chunked", False, 65),
+                       ("block", (60, 150), "files", "cl", True, 145), ("block-few", (100,), "forms", "cl", False, 10)]
 JSON_QUICK = ["obj-open", "arr", "num", "str", "nul", "member-value", "member-key", "any2", "escape", "nested", "two-values"]
 
 
@@ -987,16 +1017,18 @@ def queries(tier):
                len(HANG_CTYPES[tag]) + HANG_CTYPES[tag].count("P") * max(lengths), kind, O1H),
             max(90, 3 * cpu), ["answered"], "hang/ctype",
             {"template": HANG_CTYPES[tag], "units": list(units), "lengths": list(lengths), "handler": kind})
-    for group, lengths, kind, framing, cpu in (HANG_BLOCK_THOROUGH + HANG_BLOCK_QUICK if T else HANG_BLOCK_QUICK):
+    for group, lengths, kind, framing, whole, cpu in (HANG_BLOCK_THOROUGH + HANG_BLOCK_QUICK if T else HANG_BLOCK_QUICK):
         units = UNITS[group]
-        add("hang/block/%s/%s/%s/n%s" % (group, kind, framing, "-".join(str(x) for x in lengths)),
-            make_hang_block(units, lengths, kind, framing),
+        add("hang/block/%s/%s/%s%s/n%s" % (group, kind, framing, "-whole" if whole else "", "-".join(str(x) for x in lengths)),
+            make_hang_block(units, lengths, kind, framing, whole),
             "multipart part whose header block is the name line + 'X: ' + P + two fully symbolic bytes + CRLF + data, P = "
-            "one of the units {%s} repeated and cut to a run length from {%s} (picked by the solver); the free bytes "
-            "arrive with 3 bytes of context in a read of their own; %s framing; handler reads request.%s; %s"
-            % (show(units), lens(lengths), framing, kind, O1H),
+            "one of the units {%s} repeated and cut to a run length from {%s} (picked by the solver); %s; %s framing; "
+            "handler reads request.%s; %s"
+            % (show(units), lens(lengths), "the body arrives in one read" if whole else
+               "the free bytes arrive with 3 bytes of context in a read of their own", framing, kind, O1H),
             max(90, 3 * cpu), ["answered", "status-2xx"], "hang/block",
-            {"units": [x.decode("latin1") for x in units], "lengths": list(lengths), "handler": kind, "framing": framing})
+            {"units": [x.decode("latin1") for x in units], "lengths": list(lengths), "handler": kind, "framing": framing,
+             "whole": whole})
 
     # ---- chunked stream of a JSON / urlencoded / opaque body cut at every offset, with and without chunk extensions
     for tag, ext in ([("json", CHUNK_EXT), ("form", CHUNK_EXT)] if not T else
@@ -1065,7 +1097,19 @@ def selftest(tier):
     except AssertionError as e:
         STATS["regex_model_error"] = repr(e)[:500]
         regex_ok = "regex-model-agrees-with-cpython"    # cannot be met: reported as a machinery error by the runner
+    try:
+        STATS["hang_detector_paths"] = stubs_c12.check_budget_detector()
+        detector_ok = "ok"
+    except AssertionError as e:
+        STATS["hang_detector_error"] = repr(e)[:500]
+        detector_ok = "hang-detector-detects"           # cannot be met: reported as a machinery error by the runner
     cases = [
+        ("hang/field/name/q-open/plain/cl/n64-150", {"h": b"x", "u": 0, "n": 1}, detector_ok),
+        ("hang/field/filename/q-close/plain/chunked/n64-150", {"h": b";", "u": 0, "n": 0}, "ok"),
+        ("hang/field/name/bare/marks/cl/n96", {"h": b"z", "u": 0, "n": 0}, "ok"),
+        ("hang/field/name/q-open/plain/cl/n64-150", {"h": b"x", "u": 1, "n": 0}, "rejected"),
+        ("hang/ctype/quoted/ct/forms/n60-150", {"o": 0, "m": 1, "u": 3, "n": 1}, "ok"),
+        ("hang/block/block-few/forms/cl-whole/n100", {"h": b"\r\n", "u": 1, "n": 0}, "ok"),
         ("mp/hole/text/colon/forms/cl/w2-2", {"h": b":"}, regex_ok),
         ("mp/hole/text/colon/forms/cl/w2-2", {"h": b"x"}, "ok"),
         ("mp/hole/text/colon/forms/cl/w2-2", {"h": b"\xff"}, "ok"),
